@@ -165,6 +165,18 @@ impl std::fmt::Write for FailingSink {
     }
 }
 
+/// A sink that accepts `0` bytes and then panics.
+pub struct PanickingSink(pub usize);
+impl std::fmt::Write for PanickingSink {
+    fn write_str(&mut self, x: &str) -> std::fmt::Result {
+        if x.len() > self.0 {
+            panic!("sink closed");
+        }
+        self.0 -= x.len();
+        Ok(())
+    }
+}
+
 /// Printing into a sink that fails part-way must leave nothing behind: the next print of the value (and
 /// of the value printed before it) is the plain text again.
 fn c16_after_failing_sink<T: std::fmt::Display>(v: &T, plain: &str, what: &str, st: &mut Stats) -> Check {
@@ -178,6 +190,12 @@ fn c16_after_failing_sink<T: std::fmt::Display>(v: &T, plain: &str, what: &str, 
         })
         .map_err(|p| Fail::new("C16:print_panic", format!("{} {:?} into a failing sink: {}", what, plain, p)))?;
         ensure!(again == plain, "C16:print_after_failed_write", "{} {:?} prints as {:?} after a print of it into a sink that failed after {} bytes", what, plain, again, limit);
+        let _ = guard(|| {
+            let mut w = PanickingSink(limit);
+            let _ = write!(w, "{}", v);
+        });
+        let again = guard(|| v.to_string()).map_err(|p| Fail::new("C16:print_panic", format!("{} {:?} after a panicking sink: {}", what, plain, p)))?;
+        ensure!(again == plain, "C16:print_after_failed_write", "{} {:?} prints as {:?} after a print of it into a sink that panicked after {} bytes (the panic was contained)", what, plain, again, limit);
     }
     st.bump("values_printed_after_failing_sink");
     Ok(())
@@ -327,6 +345,51 @@ pub fn c16_values(st: &mut Stats) -> Check {
         c16_flagged(d, &text, "direction", |t| Direction::from_str(t).ok(), st)?;
         c16_after_failing_sink(d, &text, "direction", st)?;
     }
+    Ok(())
+}
+
+/// Dictionary strings: what a lenient parser might accept although it is not the printed form - spelled
+/// out directions and pieces, other notations for a step (official Arimaa notation with the piece letter
+/// in front, capture marks, separators, destination squares), alone and combined with every square.
+/// Returns the first failing string.
+pub fn c16_dictionary(st: &mut Stats) -> Result<(), (Fail, String)> {
+    let words: Vec<&str> = vec![
+        "north", "east", "south", "west", "North", "NORTH", "up", "down", "left", "right", "Up", "u", "d", "l", "forward", "back", "nn", "ne", "nw", "se", "sw", "n.", "n ", " n", "n\n", "->n",
+        "rabbit", "cat", "dog", "horse", "camel", "elephant", "Rabbit", "RABBIT", "Elephant", "gold", "silver", "g", "G", "b",
+        "pass", "Pass", "PASS", "p.", "pp", "p ", " p", "resign", "takeback", "x", "X", "+", "-", "=", "*", "#", "?", "!", "0", "1", "00", "ok", "none", "None", "null", "",
+    ];
+    let seps = ["", " ", "-", ">", "->", ":", "_", "x", ",", "/", "\t"];
+    let pieces = ["", "r", "c", "d", "h", "m", "e", "R", "C", "D", "H", "M", "E"];
+    let mut check = |t: &str, st: &mut Stats| -> Result<(), (Fail, String)> { c16_string(t, st).map_err(|f| (f, t.to_string())) };
+    for w in words.iter() {
+        check(w, st)?;
+    }
+    for i in 0..64u8 {
+        let sq = format!("{}{}", (b'a' + i % 8) as char, 8 - i / 8);
+        for w in words.iter() {
+            for sep in seps.iter() {
+                check(&format!("{}{}{}", sq, sep, w), st)?;
+            }
+            check(&format!("{}{}", w, sq), st)?;
+        }
+        for p in pieces.iter() {
+            for d in ["n", "e", "s", "w", "x", ""] {
+                // official notation: piece letter, square, direction or capture mark
+                check(&format!("{}{}{}", p, sq, d), st)?;
+                check(&format!("{}{}{} ", p, sq, d), st)?;
+            }
+        }
+        // a step written as origin and destination
+        for j in [i.wrapping_sub(8), i + 8, i.wrapping_sub(1), i + 1] {
+            if j < 64 {
+                let to = format!("{}{}", (b'a' + j % 8) as char, 8 - j / 8);
+                for sep in seps.iter() {
+                    check(&format!("{}{}{}", sq, sep, to), st)?;
+                }
+            }
+        }
+    }
+    st.bump("dictionary_strings_done");
     Ok(())
 }
 
